@@ -530,6 +530,12 @@ func (t *Trie) getFromStore(h util.Uint256) (Node, error) {
 	if r.Err != nil {
 		return nil, r.Err
 	}
+	// Only branch, extension and leaf nodes are ever stored; a hash or an
+	// empty node can only come from malformed (or crafted) data.
+	switch n.Node.(type) {
+	case *HashNode, EmptyNode:
+		return nil, fmt.Errorf("unexpected node of type %d stored under hash %s", n.Node.Type(), h.StringBE())
+	}
 
 	if t.mode.RC() {
 		data = data[: len(data)-5 : len(data)-5] // Cap is limited to avoid modification of store's data on append.
